@@ -286,6 +286,13 @@ def build_sim(rb, cfg):
             sim.add(m=0.01 + 0.001 * i, r=0.25, x=rng.uniform(-8, 8), y=rng.uniform(-8, 8), z=rng.uniform(-8, 8),
                     vx=rng.uniform(-.5, .5), vy=rng.uniform(-.5, .5), vz=rng.uniform(-.5, .5))
         sim.dt = 0.05
+    elif system == "swarm":
+        rng = SplitMix(cfg.get("seed", 1))
+        sim.add(m=1.0, r=0.005)
+        for i in range(8):
+            sim.add(m=rng.loguniform(1e-5, 3e-3), a=1.0 + 0.03 * i + rng.uniform(0, 0.02), e=rng.uniform(0, 0.05),
+                    f=rng.uniform(0, 6.28), r=rng.uniform(0.003, 0.02))
+        sim.dt = 0.02
     elif system == "sheet":
         sim.gravity = "none"
         sim.G = 1.0
@@ -348,6 +355,8 @@ def build_sim(rb, cfg):
         sim.testparticle_hidewarnings = 1
         sim.opening_angle2 = 0.3
         sim.units = ("yr", "AU", "Msun") if False else sim.units
+    if cfg.get("display"):
+        rb.clibrebound.reb_simulation_add_display_settings(ctypes.byref(sim))
     attach(sim, cfg)
     return sim
 
